@@ -13,7 +13,7 @@ def splits {α : Type} : List α → List (List α × List α)
   | x :: xs => (splits xs).flatMap fun (a, b) => [(x :: a, b), (a, x :: b)]
 
 mutual
-def memberb (D : Decls) : Nat → Ts → Json → Bool
+def memberb (D : Decls) : Nat → Ts → JVal → Bool
   | 0, _, _ => false
   | f + 1, t, j =>
     match t, j with
@@ -33,7 +33,7 @@ def memberb (D : Decls) : Nat → Ts → Json → Bool
     | .neverArray, .arr [] => true
     | .emptyRecord, .obj [] => true
     | .obj fs, .obj kvs =>
-      (fs.all fun (k, t) => match Json.lookup k.name kvs with
+      (fs.all fun (k, t) => match JVal.lookup k.name kvs with
         | some v => memberb D f t v
         | none => k.optional)
       && (kvs.all fun (k, _) => fs.any fun (k', _) => k'.name == k)
@@ -44,7 +44,7 @@ def memberb (D : Decls) : Nat → Ts → Json → Bool
     | .inter ts, j => ts.all fun t => memberb D f t j
     | .paren t, j => memberb D f t j
     | _, _ => false
-def interObjb (D : Decls) : Nat → List Ts → List (Str × Json) → Bool
+def interObjb (D : Decls) : Nat → List Ts → List (Str × JVal) → Bool
   | 0, _, _ => false
   | _ + 1, [], _ => true
   | f + 1, [t], kvs => memberb D f t (.obj kvs)
